@@ -84,12 +84,15 @@ def write_cfgs(k, thorough):
     poffd = [k["HFB"] + 3] + ([k["HFB"] + 20] if thorough else [])
     offsoon = list(range(0, k["LGP"] + (9 if thorough else 4)))
     bighops = [0, 1, 24, 100] if thorough else [0, 24]
+    # other per-block work laid next to the deadlines (quick: one of each transaction / depth / duty)
+    cokinds = sorted(COKINDS) if thorough else ["splice6", "splice1", "open6", "openann"]
     hdr = "\\* GENERATED by checks/c08.py from the constants printed by harness/src/bin/consts.rs -- do not edit\n"
     mc = (hdr + "SPECIFICATION Spec\nCONSTANTS\n" + consts +
           "  H0 = %d\n  OffFinal = %s\n  OffFwdA = %s\n  OffFwdB = %s\n  Deltas = %s\n  Slack1 = %s\n  FarProbe = %s\n" %
           (H0, tla_set(off_final), tla_set(off_a), tla_set(off_b), tla_set(deltas), tla_set(slack1), tla_set(far)) +
           "  ProbeDeltas = %s\n  ProbeOffD = %s\n  OffSoon = %s\n  BigHops = %s\n" %
           (tla_set(pdeltas), tla_set(poffd), tla_set(offsoon), tla_set(bighops)) +
+          "  CoKindsUsed = {%s}\n" % ",".join('"%s"' % x for x in cokinds) +
           "INVARIANTS " + INVS + " EmitScripts\nCONSTRAINT Horizon\nCHECK_DEADLOCK FALSE\n")
     tr = (hdr + "SPECIFICATION TraceSpec\nCONSTANTS\n" + consts + "INVARIANTS " + INVS +
           "\nPOSTCONDITION TraceAccepted\nCHECK_DEADLOCK FALSE\n")
@@ -101,7 +104,7 @@ def write_cfgs(k, thorough):
            "  H0 = %d\n  OffFinal = %s\n  OffFwdA = %s\n  OffFwdB = %s\n  Deltas = %s\n  Slack1 = {1}\n  FarProbe = {0}\n" %
            (H0, tla_set(off_final[:1]), tla_set(off_a), tla_set(off_b[:1]), tla_set(deltas[:1])) +
            "  ProbeDeltas = %s\n  ProbeOffD = %s\n  OffSoon = {0}\n  BigHops = {0}\n" % (tla_set(pdeltas[:1]), tla_set(poffd[:1])) +
-           "  CodeExitCarriesTimedOut <- MutExitSpliceDrops\n" +
+           "  CoKindsUsed = {\"splice6\"}\n  CodeExitCarriesTimedOut <- MutExitSpliceDrops\n" +
            "INVARIANTS " + INVS + "\nCONSTRAINT Horizon\nCHECK_DEADLOCK FALSE\n")
     with open(os.path.join(vlib.SPEC, "DeadlinesMC_mut_gen.cfg"), "w") as f:
         f.write(mut)
@@ -109,7 +112,7 @@ def write_cfgs(k, thorough):
         f.write(tr)
     return {"OffFinal": off_final, "OffFwdA": off_a, "OffFwdB": off_b, "Deltas": deltas,
             "Slack": [s - 1 for s in slack1], "FarProbe": far, "ProbeDeltas": pdeltas, "ProbeOffD": poffd,
-            "OffSoon": offsoon, "BigHops": bighops}
+            "OffSoon": offsoon, "BigHops": bighops, "CoKindsUsed": cokinds, "CoOffsets": [-1, 0, 1]}
 
 
 def sweep_scripts(k, rng, n):
@@ -276,7 +279,10 @@ def pick_scripts(scripts, k, rng, cap_blocks, cap_chain, cap_co):
         seen.add(key)
         if e.get("co"):
             late = "never" if e["c1"] == NEVER else ("late" if e["c1"] > k["MBC"] else "")
-            cls = (e["codl"], e["coo"], e["cok"], e["role"], e["up"], e["dn"], late, bool(e.get("rsa")))
+            # (the short ones -- holding-cell and final-hop scenarios -- also per outgoing expiry / moment of the
+            # peer's answer / moment of the claim)
+            fine = (e["offd"], e["x"]) if e["dn"] == "cell" else ((e["offu"], e["claim"]) if e["role"] == "final" else None)
+            cls = (e["codl"], e["coo"], e["cok"], e["role"], e["up"], e["dn"], late, bool(e.get("rsa")), fine)
             coruns.setdefault(cls, []).append(e)
         elif not e["heavy"]:
             cheap.append(e)
@@ -464,7 +470,16 @@ def apalache(wd, k):
 
 def selftest(wd, tpath, cfg):
     """Binding self-test: corrupted copies of accepted runs must each be rejected."""
-    recs = [json.loads(x) for x in open(tpath) if x.strip()]
+    recs = []
+    for x in open(tpath):
+        if not x.strip():
+            continue
+        r = json.loads(x)
+        if r["ev"] == "blocks":
+            # (the engine writes a row of empty blocks as one record: one record per block here)
+            recs += [{"ev": "block", "h": r["h"] - r["n"] + 1 + j, "conf": [], "run": r["run"]} for j in range(r["n"])]
+        else:
+            recs.append(r)
     byrun = {}
     for r in recs:
         byrun.setdefault(r["run"], []).append(r)
@@ -643,6 +658,17 @@ def selftest(wd, tpath, cfg):
             hh += 1
             keep.append({"ev": "block", "h": hh, "conf": [], "run": rs[0]["run"]})
         muts.append(("holding-cell-give-up-missing-on-splice-locked-block", keep))
+    # (p) a row of empty blocks recorded with the wrong height; (q) other per-block work recorded on another block
+    rs = find(lambda rs: any(r["ev"] == "block" for r in rs))
+    if rs:
+        i = next(j for j, r in enumerate(rs) if r["ev"] == "block")
+        rs[i] = {"ev": "blocks", "h": rs[i]["h"] + 1, "n": 1, "run": rs[i]["run"]}
+        muts.append(("blocks-record-height-mismatch", rs[:i + 1]))
+    rs = find(lambda rs: any(r["ev"] == "co" for r in rs))
+    if rs:
+        i = next(j for j, r in enumerate(rs) if r["ev"] == "co")
+        rs[i]["h"] += 1
+        muts.append(("other-work-on-another-block", rs[:i + 1]))
     rejected = 0
     names = []
     for name, m in muts:
@@ -724,7 +750,7 @@ def run(tier, seed):
             raise vlib.ToolError("apalache: obligations not discharged although the bounded model holds: %s" % failed)
     cheap, late, heavy, nclasses, nlate, coruns, nco = pick_scripts(scripts, k, rng, 2500 if thorough else 300,
                                                                     6000 if thorough else 1600,
-                                                                    6000 if thorough else 1100)
+                                                                    8000 if thorough else 1500)
     sweep = sweep_scripts(k, rng, 1500 if thorough else 300) + sweep_deadpeer(k, rng, 400 if thorough else 80)
     conv = ([cex_script] if cex_script else []) + cheap + late + heavy + coruns + sweep
     n_model_runs = len(conv) - len(sweep)
@@ -735,7 +761,9 @@ def run(tier, seed):
 
     # ---- 2. the same offsets on real nodes
     tpath = os.path.join(wd, "trace.ndjson")
+    te = time.time()
     summ = run_engine(bins["deadlines"], wd, conv, tpath)
+    summ["wall_s"] = round(time.time() - te, 1)
     vlib.log("[deadlines] %s (decided at once %d, late off-chain answers %d of %d, on-chain %d runs over %d classes, "
              "other per-block work next to a deadline %d runs over %d classes)" %
              (summ, len(cheap), len(late), nlate, len(heavy), nclasses, len(coruns), nco))
@@ -847,7 +875,9 @@ def run(tier, seed):
     vlib.log("[deadlines] %s" % stats)
 
     # ---- 3. trace validation (the oracle)
+    tv = time.time()
     total, fails = vlib.validate_trace(PID, "DeadlinesTrace", "DeadlinesTrace_gen.cfg", tpath, timeout=2400)
+    vlib.log("[trace] %d records validated against DeadlinesTrace, %d rejected run(s), %.0fs" % (total, len(fails), time.time() - tv))
     nviol = 0
     for fl in fails:
         runid = fl["run"]
